@@ -62,7 +62,7 @@ ASSUMPTIONS = [
     "rails have the shape `$v = execute action; if blocked: bot refuse to respond / create event XException; stop; if rewrite: $text = …`; one utterance per turn",
     "timestamps / durations of the generation log are not modelled",
     "LLM completions are post-processed by the generation actions (strip, first line, quotes): texts that look like syntax are used as LLM answers only in `general` mode and only where the completion is returned as it is",
-    "turns stay below the runtime's safety cap of 100 new events (a handful of thorough cases with 3+2+2 rails and a two-call dialog exceed it: generate raises 'Too many events.'; skipped and counted as event-cap-hit)",
+    "turns stay below the runtime's safety cap of 100 new events (a handful of thorough cases with 3+2+2 rails and a two-call dialog exceed it: the valve ends the turn with the internal-error message since /repo e77d9e1 (before: generate raised 'Too many events.'); recognised by the runtime's warning, skipped and counted as event-cap-hit)",
 ]
 EXHAUSTIVE = {"quick": False, "thorough": True}
 
@@ -582,7 +582,44 @@ def run_impl(case):
     return obs
 
 
+class _CapWatch:
+    """Since /repo e77d9e1 the 100-new-events safety valve of `RuntimeV1_0.generate_events` ends the turn with the internal-error
+    events and logs a warning instead of raising 'Too many events.': the valve is observed through that warning."""
+
+    def __init__(self):
+        import logging
+
+        self.hit = False
+        outer = self
+
+        class H(logging.Handler):
+            def emit(self, record):
+                try:
+                    if "Too many events" in record.getMessage():
+                        outer.hit = True
+                except Exception:  # noqa
+                    pass
+
+        self.h = H(level=logging.WARNING)
+        self.lg = logging.getLogger("nemoguardrails.colang.v1_0.runtime.runtime")
+
+    def __enter__(self):
+        self.lg.addHandler(self.h)
+        return self
+
+    def __exit__(self, *a):
+        self.lg.removeHandler(self.h)
+
+
 def _run_impl(case):
+    with _CapWatch() as w:
+        obs = _run_impl0(case)
+    if w.hit and isinstance(obs, dict):
+        obs["event_cap_hit"] = True
+    return obs
+
+
+def _run_impl0(case):
     if case["kind"] == "interp":
         return ci.run(case)
     if case["kind"] == "log":
@@ -803,11 +840,9 @@ def chain(rails, text):
 
 def capped(obs):
     """`RuntimeV1_0.generate_events` stops a turn after more than 100 new events (configurations with many rails): older trees
-    raise, the current one appends the internal-error utterance to whatever was said."""
-    if obs.get("exc", "").startswith("Exception: Too many events"):
-        return True
-    n_events = sum(1 for e in (obs.get("alog") or []) if e[0] not in ("step", "llm"))
-    return n_events > 100 and (obs.get("response") or "").endswith(po.INTERNAL_ERROR)
+    raise, the current one logs the warning "Too many events" (captured by `_CapWatch`: `obs["event_cap_hit"]`) and appends the
+    internal-error utterance to whatever was said."""
+    return obs.get("exc", "").startswith("Exception: Too many events") or bool(obs.get("event_cap_hit"))
 
 
 def well_shaped(alog):
@@ -861,11 +896,17 @@ def oracle(case, obs):
 
 def _oracle_e2e(case, obs):
     cfg = case["cfg"]
+    sel = set(CATS) if (case.get("no_options") or case["opts"] is None) else set(case["opts"])
     if capped(obs):
-        return None  # the runtime's safety cap (> 100 events in one turn) is outside the model; counted in the tags
+        # the runtime's safety cap (> 100 events in one turn) is outside the model; counted in the tags.  It excuses LONG documented
+        # runs only (a rail takes about eleven events): with few rails selected, 100 events mean that something ran again and again
+        n_doc = sum(len(cfg[c]) for c in ("input", "output", "retrieval") if c in sel)
+        if n_doc >= 5:
+            return None
+        return (f"the turn was cut off by the runtime's safety cap (more than 100 events) although only {n_doc} rail(s) are configured for the selected "
+                f"categories {sorted(sel)}: input/output rails invoked {[c for c in obs.get('calls', []) if c[0] in ('input', 'output')][:8]}…")
     if "exc" in obs:
         return f"generate raised {obs['exc']}"
-    sel = set(CATS) if (case.get("no_options") or case["opts"] is None) else set(case["opts"])
     # (1) only selected categories run
     for c in obs["calls"]:
         if c[0] not in sel:
@@ -956,7 +997,7 @@ def _failure_class(d):
     for needle, cls in (("generate raised", "raised"), ("ran although", "unselected-category-ran"), ("LLM call(s) although", "llm-without-dialog"),
                         ("dialog rails selected: expected", "llm-count"), ("documented reply", "reply"), ("rails-exception mode", "reply"),
                         ("input/output rails invoked", "rails-invoked"), ("retrieval rails are selected", "selected-retrieval-missing"),
-                        ("log.activated_rails", "log"), ("flagged stop", "log")):
+                        ("log.activated_rails", "log"), ("flagged stop", "log"), ("safety cap", "event-cap-with-few-rails")):
         if needle in d:
             return cls
     return "other"
